@@ -838,3 +838,15 @@ def _defaultdict(eng, node, factory=None):
     if isinstance(factory, ModRef) and factory.dotted.startswith("builtins."):
         name = factory.dotted.split(".", 1)[1]
     return DefaultDictNew(name)
+
+
+@reg("builtins.super")
+def _super(eng, node):
+    """zero-argument super() inside a method executed by the engine"""
+    from .engine import SuperProxy
+    fr = eng.frame
+    if "." not in fr.qual:
+        raise Unsupported("super() outside a method")
+    fnode = fr.mod.functions[fr.qual]
+    selfname = fnode.args.args[0].arg
+    return SuperProxy(fr.env[selfname], [("name", selfname)], fr.qual.rsplit(".", 1)[0])
